@@ -180,3 +180,23 @@ Theorem call_complex rec ip h w sp re im i :
 Proof. exact (CallRules.call_complex rec ip h w sp re im i). Qed.
 Print Assumptions call_complex.
 
+(* a pipe (ㄴㄱ): stages left to right, each receiving what the stage before RETURNED as it is, the last stage's result returned as it is (pipe_spec) *)
+Theorem call_pipe rec ip h w sp i es argv :
+  runG rec value ip h w (apply_body (EFun (FPipe i es)) sp argv) = pipe_spec rec ip sp es h w argv.
+Proof. exact (CallRules.call_pipe rec ip h w sp i es argv). Qed.
+Print Assumptions call_pipe.
+
+(* a spread function (ㅂㅂ) hands its function one argument: the list of its arguments, unevaluated *)
+Theorem call_spread rec ip h w sp i e argv :
+  runG rec value ip h w (apply_body (EFun (FSpread i e)) sp argv) =
+  thenG (of_out (rec ip h w (TComp (apply_body e sp [VList argv])))) (fun h1 w1 x => DoneG h1 w1 (inl x) 0).
+Proof. exact (CallRules.call_spread rec ip h w sp i e argv). Qed.
+Print Assumptions call_spread.
+
+(* a collect function (ㅁㅂ) hands the elements of its one list argument, unevaluated, as separate arguments *)
+Theorem call_collect_list rec ip h w sp i e l :
+  runG rec value ip h w (apply_body (EFun (FCollect i e)) sp [VList l]) =
+  thenG (of_out (rec ip h w (TComp (apply_body e sp l)))) (fun h1 w1 x => DoneG h1 w1 (inl x) 0).
+Proof. exact (CallRules.call_collect_list rec ip h w sp i e l). Qed.
+Print Assumptions call_collect_list.
+
